@@ -570,6 +570,37 @@ func Outside(prefix string) bool {
 	return false
 }
 
+// dirEntry implements os.DirEntry for ReadDirEntries (os.ReadDir).
+type dirEntry struct{ i info }
+
+func (d dirEntry) Name() string { return d.i.name }
+func (d dirEntry) IsDir() bool  { return d.i.dir }
+func (d dirEntry) Type() os.FileMode {
+	if d.i.dir {
+		return os.ModeDir
+	}
+	return 0
+}
+func (d dirEntry) Info() (os.FileInfo, error) { return d.i, nil }
+
+// ReadDirEntries mirrors os.ReadDir (entries sorted by name).
+func ReadDirEntries(p string) ([]os.DirEntry, error) {
+	l, err := ReadDir(p)
+	if err != nil {
+		return nil, err
+	}
+	out := make([]os.DirEntry, 0, len(l))
+	for _, x := range l {
+		out = append(out, dirEntry{x.(info)})
+	}
+	return out, nil
+}
+
+// IsNotExist / IsExist classify the model's errors like os.IsNotExist and
+// os.IsExist classify the kernel's (ENOENT; EEXIST, ENOTEMPTY).
+func IsNotExist(err error) bool { return err == ErrNotExist }
+func IsExist(err error) bool    { return err == ErrExist || err == ErrNotEmpty }
+
 // Snapshot helpers for harnesses.
 func Exists(p string) bool { _, err := walkTo(split(p)); return err == nil }
 func Content(p string) ([]byte, bool) {
